@@ -32,10 +32,12 @@ PROP = {
         "hop.cons_ingress, hop.cons_egress, key), one evaluation, AES-CMAC uninterpreted",
         "OneHopPathView::set_second_hop: writes only ExpTime/ConsIngress/ConsEgress/MAC of the second hop; MAC evaluated on "
         "(SegID or SegID^mac1[0..2], timestamp, exp1, ingress, 0, key)",
-        "thorough: the same advance contracts on the FULL input domain (N = 2296 B = largest layout a meta header can describe): class P; "
-        "real AES-CMAC on one known hop block (reference value from OpenSSL, which reproduces RFC 4493 example 2)",
     ],
     "not_decided": [
+        "thorough-tier harnesses written in /verif/kani/sciparse/routing.rs but NOT yet run and therefore NOT registered: "
+        "c11_{egress,ingress}_{atomic_frame,step_rule}_full (same contracts on the FULL input domain, N = 2296 B = largest layout a meta "
+        "header can describe; would be class P) and c11_mac_known_vector_t (real AES-CMAC on one hop block, reference value from OpenSSL "
+        "which reproduces RFC 4493 example 2: key 2b7e1516..., block 000012345f000000003f010203040000 -> 34d6c623df84)",
         "'changing any authenticated bit makes verification fail': reduces to validator exactness + second-preimage resistance of the "
         "48-bit truncated AES-CMAC (cryptographic assumption, not decidable by contracts)",
         "pocketscion spec/onehop.rs handler (owned by C13)",
@@ -43,10 +45,10 @@ PROP = {
     ],
     "assumptions": [
         "calculate_hop_mac is replaced by an uninterpreted function (records arguments, returns a fresh symbolic value) in "
-        "c11_validator_exact and c11_onehop_set_second_hop; the real function is exercised concretely in c11_mac_known_vector_t",
+        "c11_validator_exact and c11_onehop_set_second_hop",
         "second-preimage resistance of truncated AES-CMAC",
     ],
-    "trusted": ["aes / cmac crates (checked on one known vector in the thorough tier)"],
+    "trusted": ["aes / cmac crates (AES-CMAC itself is not executed symbolically)"],
     "units": [
         {
             "id": "sciparse-routing", "engine": "kani", "package": "sciparse",
@@ -67,11 +69,6 @@ PROP = {
                 H("c11_ingress_atomic_frame_n100", "B", bound=B100, what="ingress: Err => bytes unchanged; Ok => byte-wise frame", timeout=3000),
                 H("c11_ingress_step_rule_n100", "B", bound=B100, what="ingress: pointer rule incl. segment change, ForwardLocal, SegID rule, validator protocol", timeout=3000),
                 H("c11_validator_exact", "P", what="HopMacValidator accepts iff mac == MAC(authenticated tuple, key)", timeout=1800),
-                H("c11_egress_atomic_frame_full", "P", tier="thorough", what="egress atomicity+frame on the full input domain (2296 B)", timeout=7200),
-                H("c11_egress_step_rule_full", "P", tier="thorough", what="egress step rule on the full input domain", timeout=7200),
-                H("c11_ingress_atomic_frame_full", "P", tier="thorough", what="ingress atomicity+frame on the full input domain", timeout=7200),
-                H("c11_ingress_step_rule_full", "P", tier="thorough", what="ingress step rule on the full input domain", timeout=7200),
-                H("c11_mac_known_vector_t", "P", tier="thorough", what="real AES-CMAC on one known hop block", timeout=3600),
             ],
         },
         {
